@@ -185,13 +185,18 @@ def cast_jobs(rng, n_down, all_pairs=False):
                        f"Downcast({t(a[0])}, {t(a[1])}, {t(b[0])}, {t(b[1])}, A1, R1, R2) /\\ {RCANY}",
                        quick=((a, b) == (urange(64), urange(16)))))
     felt_targets = [(0, 7), (0, 0), (0, 2 ** 123 - 1), (-2 ** 123, -1), (2 ** 128 - 2 ** 123, 2 ** 128),
-                    (-5, 5), (1, 2 ** 64), (-2 ** 64, 2 ** 64), (-10, 3)]
+                    (-5, 5), (1, 2 ** 64), (-2 ** 64, 2 ** 64), (-10, 3),
+                    # the case analysis of the range reduction pivots on lower == 0, size == 2**128 and on the
+                    # distance of the upper bound from the range-check bound: instantiate every side of each pivot
+                    (2 ** 128 - 6, 2 ** 128 - 1), (2 ** 128 - 2 ** 100, 2 ** 128 - 1), (2 ** 128 - 6, 2 ** 128 - 2),
+                    (2 ** 128 - 6, 2 ** 128), (2 ** 128 - 1, 2 ** 128 - 1), (0, 2 ** 128 - 1), (1, 6), (-6, -1), (-6, 0),
+                    (2 ** 128, 2 ** 128 + 5), (-1, 2 ** 123 - 2)]
     for b in felt_targets:
         out.append(job(f"downcast_felt_{rname(b)}", "downcast_felt",
                        f"{BI}#[allow(extern_outside_corelib)]\n"
                        f"extern fn downcast<T, S>(index: T) -> Option<S> implicits(RangeCheck) nopanic;\n"
                        f"fn foo(index: felt252) -> Option<{tyname(b)}> {{\n    downcast(index)\n}}\n",
-                       [], f"DowncastFelt({t(b[0])}, {t(b[1])}, A1, R1, R2) /\\ {RCANY}", quick=(b == (-5, 5))))
+                       [], f"DowncastFelt({t(b[0])}, {t(b[1])}, A1, R1, R2) /\\ {RCANY}", quick=(b in ((-5, 5), (2 ** 128 - 6, 2 ** 128 - 1)))))
     return out
 
 
